@@ -99,6 +99,13 @@ class Scale:
                 return ("LC" if b[0] == "LCB" else b[0], b[1])
             return ("bool", 0) if isinstance(n.op, ast.Not) else b
         if isinstance(n, ast.BinOp):
+            # (1 << resolution) - 1 : the bit mask of the fractional part, not a quantity at some scale
+            if isinstance(n.op, ast.Sub) and isinstance(n.right, ast.Constant) and n.right.value == 1 and not isinstance(n.right.value, bool):
+                from ..flatten import resolve_locals as _rl14
+                lres = _rl14(fi.node, n.left) if fi is not None and isinstance(n.left, ast.Name) else n.left
+                if isinstance(lres, ast.BinOp) and isinstance(lres.op, ast.LShift) and norm(lres.left) == "1" \
+                        and self.res_multiple(lres.right) not in (None, 0):
+                    return ("int", None)
             l = self.ex(n.left, env, fi, ctx)
             r = self.ex(n.right, env, fi, ctx)
             return self.binop(n, l, r, fi, ctx)
@@ -710,6 +717,7 @@ def rule_floor_direction(repo, rule):
         bad = None
         both_neg_rem = set()       # names holding the remainder of a both-negated divmod
         quo_names = set()          # names holding a quotient (or a whole divmod pair)
+        quo_binds = {}             # name -> binding statements (a negation counts only after one of them)
         for d in divs:
             l_, r_ = operands(d)
             if l_ is None:
@@ -728,13 +736,17 @@ def rule_floor_direction(repo, rule):
                     (both_neg_rem if nl else quo_names).add(tg.elts[1].id)
                 elif isinstance(tg, ast.Name):
                     quo_names.add(tg.id)
+                for nm_ in [x.id for x in ast.walk(tg) if isinstance(x, ast.Name)]:
+                    quo_binds.setdefault(nm_, []).append(st)
         for x in ([] if bad else negs):
             if divides(x.operand):
                 bad = (x, "the result of a rounding division is negated")
                 break
             if isinstance(x.operand, ast.Name) and x.operand.id in quo_names and x.operand.id not in both_neg_rem:
-                bad = (x, "the result of a rounding division is negated")
-                break
+                from ..loader import precedes as _prec
+                if any(_prec(fi.node, b_, x) for b_ in quo_binds.get(x.operand.id, [])):
+                    bad = (x, "the result of a rounding division is negated")
+                    break
         n += 1
         if bad:
             rule.violation(fi.loc(bad[0]), fi.fq, norm(bad[0])[:80], "%s: floor(-x) is not -floor(x), so the result is the ceiling of the "
